@@ -60,9 +60,15 @@ def gen_world(rng, max_wrappers=5):
         kinds = ["plain", "prefix", "mcaller", "mcaller_noprefix"]
         if not pw["auth"]:
             kinds += ["bauth", "token", "client"]
+        if not pw.get("idsetter") and rng.random() < 0.5:
+            kinds += ["idsetter"]
         kind = rng.choice(kinds)
         w = {"kind": kind, "impl": pw["impl"], "parent": p,
-             "auth": pw["auth"] or kind in ("bauth", "token", "client")}
+             "auth": pw["auth"] or kind in ("bauth", "token", "client"),
+             "idsetter": pw.get("idsetter")}
+        if kind == "idsetter":
+            # the caller supplies its request ids through an adapter of its own
+            w["idsetter"] = {"mode": rng.choice(["always", "default"]), "tag": f"adp{len(wrappers)}"}
         if kind in ("prefix", "mcaller"):
             w["prefix"] = rng.choice(["/p", "/api/", "/v1", "/x/y"])
         wrappers.append(w)
@@ -134,6 +140,18 @@ def generate(rng, tier):
 
 # --------------------------------------------------------------------------
 
+def make_id_setter(cfg):
+    RA = hw.conn_http.RequestAdapter
+
+    class IdSetter(RA):
+        """a user's adapter that provides the request id"""
+
+        def process_req_args(self, req_args):
+            if cfg["mode"] == "always" or "X-Request-ID" not in req_args.headers:
+                req_args.headers["X-Request-ID"] = cfg["tag"]
+    return IdSetter()
+
+
 def build_world(spec):
     ch = hw.conn_http
     mh = hw.mcaller_http
@@ -152,6 +170,8 @@ def build_world(spec):
                 o = ch.HttpConn(parent)
             elif kind == "prefix":
                 o = ch.HttpConn(parent, adapters=ch.RequestAdapterAddPathPrefix(w["prefix"]))
+            elif kind == "idsetter":
+                o = ch.HttpConn(parent, adapters=make_id_setter(w["idsetter"]))
             elif kind == "bauth":
                 o = ch.BAuthConn(parent, "user", "pa:ss")
             elif kind == "token":
@@ -326,6 +346,13 @@ def check(spec, ops, tr, outcomes):
         auto = []
         for op, rec in lst:
             rid = hdr(rec, "X-Request-ID")
+            ids_cfg = spec["wrappers"][op["w"] % len(spec["wrappers"])].get("idsetter")
+            if ids_cfg is not None and (ids_cfg["mode"] == "always" or op.get("own_id") is None):
+                # an id supplied through the caller's own adapter is sent unchanged and consumes no number
+                if rid != ids_cfg["tag"]:
+                    raise Violation("reqid", "adapter-supplied-id-changed",
+                                    f"op {op['k']}: sent {rid!r}, the caller's adapter gave {ids_cfg['tag']!r}")
+                continue
             if op.get("own_id") is not None:
                 if rid != op["own_id"]:
                     raise Violation("reqid", "caller-id-changed",
